@@ -161,6 +161,7 @@ class World:
         self.spec = spec
         self.counters = {}
         self.types = {}
+        self.vlog = []  # (kind, path, name, id(cfg), passed) for every validator invocation
         self.schema = self._build_schema(spec, ())
         self.ctx = specs.ref_ctx()
 
@@ -179,9 +180,36 @@ class World:
             return specs.realize(value)
         return {"default": call}
 
+    def _schema_validator(self, path, sv):
+        from .refmodel import run_schema_validator
+
+        def check(cfg, _path=path, _sv=sv):
+            try:
+                run_schema_validator(self.cc, _sv, cfg)
+            except ValueError:
+                self.vlog.append(("schema", _path, _sv["name"], id(cfg), False))
+                raise
+            self.vlog.append(("schema", _path, _sv["name"], id(cfg), True))
+        return check
+
+    def _log_field_validator(self, field, path, name):
+        from .refmodel import run_validator
+
+        def check(cfg, value, _path=path, _name=name):
+            try:
+                out = run_validator(_name, value)
+            except ValueError:
+                self.vlog.append(("field", _path, _name, id(cfg), False))
+                raise
+            self.vlog.append(("field", _path, _name, id(cfg), True))
+            return out
+        field.validator = check
+
     def _build_schema(self, node, path, as_item=False):
         cc = self.cc
         schema = cc.Schema(dynamic=bool(node.get("dynamic")))
+        for sv in node.get("svalidators") or []:
+            cc.validator(schema)(self._schema_validator(path, sv))
         for child in node["children"]:
             key = child["key"]
             cpath = path + (key,)
@@ -215,7 +243,10 @@ class World:
             elif kind == "method":
                 cc.instance_method(schema, key)(lambda cfg, a=1, *args, **kw: ("called", a))
             else:
-                schema._add_field(key, specs.build_field(cc, child, **self._default(child, cpath)))
+                field = specs.build_field(cc, child, **self._default(child, cpath))
+                if child.get("validator"):
+                    self._log_field_validator(field, cpath, child["validator"])
+                schema._add_field(key, field)
         return schema
 
     # -- navigation --------------------------------------------------------------------------
